@@ -184,6 +184,13 @@ def run_case(tset, custom, async_flag, ug=False, seqopts=False):
                                      find_unique_graphs=ug):
             stream[name] = sorted(sorted(canon_event(e) for e in job)
                                   for job in jobs)
+        # (d) the streamed links are those of the documented sequencing
+        # rules under the options configured for *that* workflow
+        if not ug:
+            prob = check_links_against_rules(tset, async_flag, seqopts,
+                                             stream)
+            if prob:
+                problems.append(prob)
         saved = {}
         inv = {v: k for k, v in CUSTOM_MAP.items()}
         for wf in wfs:
@@ -234,6 +241,39 @@ def run_case(tset, custom, async_flag, ug=False, seqopts=False):
     finally:
         shutil.rmtree(root, ignore_errors=True)
     return problems, info
+
+
+def check_links_against_rules(tset, async_flag, seqopts, stream):
+    from . import c08
+    trees = all_trees()
+    k = 0
+    for wf in WF:
+        amap, rmap = {}, {}
+        if seqopts and wf == WF[0]:
+            amap = {"r": {"a": "g1", "b": "g1"}}
+            rmap = {"r": ("R", ["a"])}
+        got = {}
+        for job in stream.get(wf, []):
+            for ev in job:
+                got[ev[0]] = (ev[1], frozenset(ev[6]))
+        for tname in tset.get(wf, []):
+            jid = f"t{k}"
+            nodes = trees[tname]
+            spans = {}
+            for i, (typ, par, s_, e_) in enumerate(nodes):
+                spans[i] = dict(type=typ, s=s_, e=e_, parent=par,
+                                children=[j for j, n in enumerate(nodes)
+                                          if n[1] == i])
+            exp = c08.ref_sequence(spans, async_flag, amap, rmap)
+            for i, (typ, prev) in exp.items():
+                want = (typ, frozenset(f"{jid}_{p}" for p in prev))
+                if got.get(f"{jid}_{i}") != want:
+                    return ["links_not_per_rules", wf, tname, f"{jid}_{i}",
+                            [got.get(f"{jid}_{i}", (None, []))[0],
+                             sorted(got.get(f"{jid}_{i}", (None, []))[1])],
+                            [want[0], sorted(want[1])]]
+            k += 1
+    return None
 
 
 def handle(task):
